@@ -279,7 +279,10 @@ func authorizeQuery(acl ACL, query string) (bool, string, []string, bool) {
 	if len(acl.Allow) == 0 && len(acl.Deny) == 0 {
 		return true, "", nil, false
 	}
-	parsed, err := kafsql.Parse(trimmed)
+	// Parse the text exactly as it is forwarded: the upstream hands the same
+	// bytes to the same parser, and pre-trimmed text can parse differently
+	// (a second trailing ';' becomes part of the topic name).
+	parsed, err := kafsql.Parse(query)
 	if err != nil {
 		return false, "proxy cannot authorize query", nil, false
 	}
